@@ -207,9 +207,14 @@ pub fn def() -> CheckDef {
         rule: "library name decoder (hook Name::verif_parse) vs an independent RFC 1035 4.1.4 decoder with a visited set: (1) bounded-exhaustive: every buffer of length <= 6 (7 thorough) over {00,01,02,03,04,05,3f,40,80,c0,ff,'a'} decoded at every start offset; (2) names of 250..=258 wire bytes from 5 label sizes, direct and through a pointer; (3) random 'soups' of labels (1..4, 30..40, 61..63 bytes), terminators, pointers to earlier pieces, absolute pointers (into the prefix, forward, out of range) and reserved-type octets, decoded at every piece start. Oracle: library Ok => same labels and same resume offset, labels 1..=63, wire <= 255; reference error (cycle, out of range, reserved type, too long, truncated) => library Err; reference Ok with only backward pointers and <= 32 hops => library Ok. Non-trivial = the reference decode met a pointer, >= 2 labels or an error; evaluations count (buffer, offset) pairs",
         assumptions: vec!["forward pointers and chains longer than 32 hops may be refused (no claim)"],
         sections: vec![
+            Box::new(ReplayOnly { name: "fuzz-bytes", check: check_raw }),
             Box::new(EnumSection { name: "exhaustive", rule: "all short buffers x all offsets", enumerate: enum_buffers, check: check_buffer, exhaustive: true }),
             Box::new(EnumSection { name: "boundary-255", rule: "names around 255 bytes", enumerate: enum_long, check: check_soup, exhaustive: true }),
             Box::new(PropSection { name: "soups", rule: "random name soups", strategy: soup_strategy, cases: (60_000, 2_000_000), check: check_soup }),
         ],
     }
+}
+
+fn check_raw(input: &(Bytes, u32), case: &mut Case) -> Result<(), Fail> {
+    compare(&input.0, input.1 as usize, case)
 }
